@@ -343,6 +343,11 @@ class Fn:
             for i, e in enumerate(b['el']):
                 if isinstance(e, int):
                     pos.setdefault(e, (bid, i))
+        # jump statements are block terminators, not elements: they sit at the end of their block
+        for bid, b in self.blocks.items():
+            t = b.get('term')
+            if isinstance(t, int) and t not in pos and self.stmts.get(t, {}).get('k') in ('GotoStmt', 'BreakStmt', 'ContinueStmt'):
+                pos[t] = (bid, len(b['el']))
         return pos
 
     def position_of(self, n):
